@@ -78,6 +78,8 @@ func (e *Engine) ghostType(name string) types.Type {
 		return types.Typ[types.Uint64]
 	case "string":
 		return types.Typ[types.String]
+	case "time":
+		return e.timeType()
 	}
 	return types.Typ[types.Int]
 }
@@ -90,6 +92,8 @@ func ghostSort(g *GhostDecl) string {
 		return SBool
 	case "string":
 		return SStr
+	case "time":
+		return STime
 	}
 	return SBV(64)
 }
@@ -460,4 +464,15 @@ func (e *Engine) resolveFieldConstraints() error {
 		}
 	}
 	return nil
+}
+
+func (e *Engine) timeType() types.Type {
+	for _, p := range e.prog.AllPackages() {
+		if p.Pkg.Path() == "time" {
+			if o := p.Pkg.Scope().Lookup("Time"); o != nil {
+				return o.Type()
+			}
+		}
+	}
+	return types.Typ[types.Int]
 }
